@@ -382,7 +382,7 @@ def make(prop):
     m.PROP = prop
     m.FAMILY = FAMILY
     m.GEN_GROUPS = GEN_GROUPS + (["Ident", "Call", "Api"] if prop == "C07" else [])
-    m.PROPS = [prop] + (["C01Ident"] if prop in ("C01", "C07") else [])
+    m.PROPS = [prop] + (["C01Ident"] if prop in ("C01", "C07") else []) + (["C01Iface"] if prop == "C01" else [])
     m.gen = gen_c07 if prop == "C07" else gen
     m.view = view
     m.nontrivial = nontrivial
